@@ -55,7 +55,17 @@ def cases(tier):
         prot = draw(st.sampled_from(["xml", "soap11", "soap12"]))
         case = {"U": U, "m": m, "args": args, "rets": rets, "prot": prot,
                 "validator": draw(st.sampled_from([None, "soft", "lxml"])),
-                "variant": draw(st.integers(0, 3))}
+                "variant": draw(st.integers(0, 3)),
+                # documented, non-default constructor options that must not change what a
+                # conformant document denotes
+                "popts": draw(st.sampled_from([None, None, None, "mix"])) and {
+                    "in": draw(st.fixed_dictionaries({}, optional={
+                        "remove_pis": st.just(False), "strip_cdata": st.just(False),
+                        "ns_clean": st.just(True), "compact": st.just(False),
+                        "replace_null_with_default": st.just(False)})),
+                    "out": draw(st.fixed_dictionaries({}, optional={
+                        "pretty_print": st.just(True), "cleanup_namespaces": st.just(False),
+                        "xml_declaration": st.just(False)}))}}
         cn = [c["name"] for c in U["classes"]]
         if prot != "xml" and cn:
             # SOAP headers: one or two header classes in each direction
@@ -73,7 +83,8 @@ def _protocols(case):
     from spyne.protocol.xml import XmlDocument
     from spyne.protocol.soap import Soap11, Soap12
     cls = {"xml": XmlDocument, "soap11": Soap11, "soap12": Soap12}[case["prot"]]
-    return cls(validator=case["validator"]), cls()
+    po = case.get("popts") or {}
+    return cls(validator=case["validator"], **(po.get("in") or {})), cls(**(po.get("out") or {}))
 
 
 class Env(object):
